@@ -5,6 +5,7 @@ import (
 	"encoding/json"
 	"fmt"
 	"go/ast"
+	"go/format"
 	"go/parser"
 	"go/token"
 	"os"
@@ -36,6 +37,82 @@ var c08Sources = []string{
 	"package main\n\nimport \"io\"\n\nimport (\n\t\"os\" // the os\n\t// sys\n\t\"syscall\"\n)\n\ntype T struct {\n\tio.Reader // embedded\n\tw         io.Writer\n}\n\nfunc f(a io.Reader, b ...io.Writer) (*os.File, syscall.Errno) {\n\tswitch a.(type) {\n\tcase io.Closer, *os.File:\n\t}\n\treturn nil, 0\n}\n",
 	"package main\n\nimport (\n\t\"cmp\"\n\t\"slices\"\n)\n\ntype Set[T cmp.Ordered] struct{ m map[T]struct{} }\n\nfunc Sorted[T cmp.Ordered](s []T) []T {\n\tslices.Sort(s)\n\treturn s\n}\n",
 }
+
+// every syntactic position a qualified identifier can occupy, each with a package used nowhere
+// else in the file (a position the import scan misses loses its import)
+const c08Positions = `package main
+
+import (
+	"bufio"
+	"bytes"
+	"cmp"
+	"container/list"
+	"context"
+	"errors"
+	"flag"
+	"fmt"
+	"image"
+	"io"
+	"io/fs"
+	"math"
+	"net"
+	"os"
+	"regexp"
+	"runtime"
+	"sort"
+	"strconv"
+	"strings"
+	"sync"
+	"sync/atomic"
+	"text/tabwriter"
+	"time"
+	"unicode"
+)
+
+type Set[T cmp.Ordered] struct{ m map[T]struct{} }
+
+type S struct {
+	sync.Mutex
+	r io.Reader
+}
+
+type I interface {
+	fmt.Stringer
+	M(regexp.Regexp) tabwriter.Writer
+}
+
+var arr [math.MaxInt8]int
+
+const c = strconv.IntSize
+
+var p atomic.Pointer[int]
+
+func f(args ...flag.Value) (*list.List, error) {
+	var e error
+	switch e.(type) {
+	case *fs.PathError:
+	}
+	switch 0 {
+	case os.O_RDONLY:
+	}
+	for range unicode.Categories {
+	}
+	go runtime.Gosched()
+	select {
+	case <-context.Background().Done():
+	}
+	_ = image.Point{X: 1}
+	_ = time.Duration(1)
+	_ = func(sort.Interface) {}
+	_ = &bytes.Buffer{}
+	_ = strings.Fields("")[0:1]
+	var ch chan net.Conn
+	_ = ch
+	var m map[bufio.ReadWriter]int
+	_ = m
+	return nil, errors.New("x")
+}
+`
 
 // accurate package names for the imports of a file (stdlib: read from $GOROOT/src)
 func accurateNames(src string) map[string]string {
@@ -130,6 +207,11 @@ func c08Check(in c08Input) (key, what string) {
 func c08Prop(c *Ctx) {
 	c.Res.Rule = "hand-written canonical files (aliased, blank, cgo, multi-block, commented specs; qualified identifiers with comments and line breaks around the dot; generic constraints) + canonical $GOROOT/src files with imports, decorated with the goast resolver and restored with guess (seeded with accurate names) and simple resolvers; non-trivial = distinct (file, restorer) that decorates without error"
 	srcs := append([]string{}, c08Sources...)
+	if b, err := format.Source([]byte(c08Positions)); err == nil {
+		srcs = append(srcs, string(b))
+	} else {
+		c.Res.Notes = append(c.Res.Notes, "c08Positions does not format: "+err.Error())
+	}
 	files := gorootFiles(20000)
 	for i := 0; i < c.N(40) && len(files) > 0; i++ {
 		b, err := os.ReadFile(files[c.Rng.Intn(len(files))])
